@@ -26,6 +26,8 @@ Via == {T("M", "viahost", 1, s) : s \in Scripts1 \cup Scripts2}
 Reuse == {T("M", "recfin", 100000000, <<>>), T("M", "recfin", 3, <<>>), T("M", "recinf", 1, <<>>), T("M", "mark", 1, <<>>)}
 (* a failure deep in a recursion, then a deep (but legal) recursion on the same function objects: frames left behind by the failure count *)
 DeepReuse == {T("M", "recmix", 1601, <<>>), T("M", "recmix", 2600, <<>>), T("M", "recmix", 6, <<>>)}
+(* unbounded recursion through the host, then an ordinary call: the instance must still be usable *)
+HostRec == {T("M", "viahost", 1, <<N("cbrec", 9, "viahost", 1, FALSE)>>), T("M", "mark", 1, <<>>)}
 K(b, v, s) == [body |-> b, via |-> v, script |-> s]
 StartsAll == {K(b, v, <<>>) : b \in {"plain", "trap"}, v \in {"section", "export"}} \cup
              {K(b, v, <<n>>) : b \in {"host", "peer2"}, v \in {"section", "export"}, n \in Leaves}
